@@ -71,6 +71,28 @@ def register(reg):
                           ("feature-table-carried", "all(same(traces(result)[j].%s, track.%s) for j in range(0, len(E)))" % (DICO, DICO))]))
 
 
+    # split(track, [i0, i1, ...]) (limit = 0): piece j holds the observations source[j] .. source[j + 1], both included
+    reg.add(Spec(S + "split", dict(track="Track", source="list[int]"), "TrackCollection",
+                 requires=["twf(track)", "all(0 <= source[j] and source[j] < npts(track) for j in range(0, len(source)))",
+                           "all(source[j] <= source[j + 1] for j in range(0, len(source) - 1))"],
+                 fresh=["TrackCollection", "Track"],
+                 loops={"2": LoopSpec(inv=[
+                     "isnew(NEW_TRACES)", "unchanged_old_class('TrackCollection')", "unchanged_old_class('Track')",
+                     "len(traces(NEW_TRACES)) == i",
+                     "all(isnew(%s) for j in range(0, i))" % (PIECE % "j"),
+                     "all(npts(%s) == source[j + 1] - source[j] + 1 for j in range(0, i))" % (PIECE % "j"),
+                     "all(implies(q <= source[j + 1] - source[j], pts(%s)[q] == pts(track)[source[j] + q]) for j in range(0, i) for q in range(0, npts(track)))"
+                     % (PIECE % "j"),
+                     "all(same(%s.%s, track.%s) for j in range(0, i))" % (PIECE % "j", DICO, DICO)])},
+                 ensures=[("new-collection", "isnew(result)"),
+                          ("one-piece-per-consecutive-pair", "len(traces(result)) == (len(source) - 1 if len(source) >= 1 else 0)"),
+                          ("piece-is-the-designated-slice",
+                           "all(npts(traces(result)[j]) == source[j + 1] - source[j] + 1 for j in range(0, len(source) - 1)) and "
+                           "all(implies(q <= source[j + 1] - source[j], pts(traces(result)[j])[q] == pts(track)[source[j] + q]) "
+                           "for j in range(0, len(source) - 1) for q in range(0, npts(track)))"),
+                          ("feature-table-carried", "all(same(traces(result)[j].%s, track.%s) for j in range(0, len(source) - 1))" % (DICO, DICO))]),
+            variant="indices")
+
     # ---------------------------------------------------------------- segmentation (threshold markers)
     V = "col(track, afs_input[%s], %s)"
     OLDV = "old(col(track, afs_input[%s], %s))"
@@ -113,5 +135,5 @@ def register(reg):
 
 
 DEPENDS = []
-FUNCTIONS = [S + "split", S + "segmentation", S + "segmentation@scalar"]
-ASSUMPTIONS = ["split: source is a feature name, limit = 0 (the default); the index-list form and limit > 0 are bounded only"]
+FUNCTIONS = [S + "split", S + "split@indices", S + "segmentation", S + "segmentation@scalar"]
+ASSUMPTIONS = ["split: source is a feature name or a list of in-range, non-decreasing indices, limit = 0 (the default); limit > 0 is bounded only"]
